@@ -97,13 +97,22 @@ def evaluate_chunk(args):
             continue
         systems = m.systems()
         probe = [("zzzz", "dflt")] + [(s, "ZZZ ") for s in sorted({s for s, _ in systems})][:2]
-        progs.append({"id": f"{seed}-{chunk}-{i}", "fea": text, "glyphs": p["glyphs"], "strings": strs, "systems": [list(s) for s in systems + probe], "alts": 2, "_ast": p})
+        # (attaching glyph, mark, ligature component) triples for the table-level mark attachment comparison
+        pairs = []
+        if p.get("markclasses"):
+            attaching = sorted({g for l in m.lookups if l["type"] in ("markbase", "markmark", "marklig") for r in l["rules"] for g in r["glyphs"]})
+            for b in attaching + ["a"]:
+                for mk in p["gdef"]["mark"]:
+                    pairs.append([b, mk, None])
+                    if b in p["gdef"]["lig"]:
+                        pairs += [[b, mk, c] for c in range(3)]
+        progs.append({"id": f"{seed}-{chunk}-{i}", "fea": text, "glyphs": p["glyphs"], "strings": strs, "systems": [list(s) for s in systems + probe], "alts": 2, "pairs": pairs, "_ast": p})
     inp = os.path.join(scratch, f"in-{chunk}.json")
     outp = os.path.join(scratch, f"out-{chunk}.jsonl")
     with open(inp, "w") as f:
         json.dump({"programs": [{k: v for k, v in p.items() if k != "_ast"} for p in progs]}, f)
     r = common.run([vapi, "c11", inp, outp], timeout=1800, cpu_s=1200, as_bytes=4 << 30)
-    res = {"ambiguous_skipped": ambiguous, "programs": 0, "rejected": 0, "evaluations": 0, "nontrivial": 0, "violations": [], "inconclusive": [], "reject_samples": [], "samples": [], "systems": 0,
+    res = {"ambiguous_skipped": ambiguous, "programs": 0, "rejected": 0, "evaluations": 0, "nontrivial": 0, "violations": [], "inconclusive": [], "reject_samples": [], "samples": [], "systems": 0, "attachments": 0,
            "rule_types": {}, "lookups": 0}
     if r.timed_out:
         res["inconclusive"].append({"chunk": chunk, "why": "watchdog"})
@@ -156,6 +165,21 @@ def evaluate_chunk(args):
                     bad += 1
                     res["violations"].append({"sig": "shaping-differs", "what": f"program {p['id']} under {sysname} features {mode} alternate {alt}: string {' '.join(s)} -> compiled tables give [{gotline}] but the feature file says [{want}]",
                                               "prog": p["fea"], "string": s, "system": sysname, "mode": mode})
+        for key, atts in o.get("attachments", {}).items():
+            sysname, mode = key.split("|")
+            script, lang = sysname.split("/")
+            only = None if mode == "*" else [mode]
+            for (b, mk, comp), gotline in zip(p["pairs"], atts):
+                want = ";".join(f"{k}:{ba[0]},{ba[1]},{ma[0]},{ma[1]}" for k, ba, ma in m.attachments(script, lang, only, b, mk, comp))
+                res["evaluations"] += 1
+                res["attachments"] += 1
+                if want:
+                    res["nontrivial"] += 1
+                if want != gotline and bad < 3:
+                    bad += 1
+                    where = f"ligature {b} component {comp + 1}" if comp is not None else b
+                    res["violations"].append({"sig": "attachment-differs", "what": f"program {p['id']} under {sysname} features {mode}: mark {mk} on {where}: compiled tables attach [{gotline}] but the feature file says [{want}]",
+                                              "prog": p["fea"], "system": sysname, "mode": mode})
         if o.get("unsupported"):
             res["inconclusive"].append({"program": p["id"], "why": "font uses " + str(o["unsupported"][:2])})
     for f in (inp, outp):
@@ -169,7 +193,7 @@ def run(tier):
     bins = common.build("rel", ("vapi",))
     nchunks, per, nstr = (16, 10, 200) if tier == "quick" else (64, 160, 140)
     jobs = [(bins["vapi"], chk.seed, c, per, nstr, chk.scratch) for c in range(nchunks)]
-    tot = {"ambiguous_skipped": 0, "programs": 0, "rejected": 0, "evaluations": 0, "nontrivial": 0, "systems": 0, "lookups": 0}
+    tot = {"ambiguous_skipped": 0, "programs": 0, "rejected": 0, "evaluations": 0, "nontrivial": 0, "systems": 0, "lookups": 0, "attachments": 0}
     types = {}
     rejects = []
     samples = []
@@ -188,7 +212,7 @@ def run(tier):
     chk.coverage.update({"evaluations": tot["evaluations"], "distinct_nontrivial": tot["nontrivial"], "rule": RULE,
                          "samples": samples[:3] + [{"rejected_program": r} for r in rejects[:2]],
                          "c11_programs_compiled": tot["programs"] - tot["rejected"], "c11_programs_rejected_by_compiler": tot["rejected"], "c11_programs_skipped_ambiguous": tot["ambiguous_skipped"],
-                         "c11_system_mode_runs": tot["systems"], "c11_compiled_lookups": tot["lookups"], "c11_model_lookups_by_type": types})
+                         "c11_system_mode_runs": tot["systems"], "c11_mark_attachment_queries": tot["attachments"], "c11_compiled_lookups": tot["lookups"], "c11_model_lookups_by_type": types})
     chk.assumptions += ["programs the compiler rejects are counted, not judged (the generator aims at well-formed input)",
                         "ligature component marks skipped by a lookup flag stay after the ligature; cursor continues after the last component (both interpreters)"]
     if tot["programs"] and tot["rejected"] > tot["programs"] * 0.5:
